@@ -16,7 +16,7 @@ EXPLANATION = (
     'no request / write / callback stamped after it returned - including when the FIRST tracked transfer failed.')
 
 
-def shared(after, size, thr, chunk, io, fault_at, phase, cancel_which, cancel_top, c0, c1):
+def shared(after, size, thr, chunk, io, fault_at, phase, cancel_which, cancel_top, c0, c1, shutdown_top=-1):
     S = ns.Sched([c0, c1])
     lim = dict(max_request_concurrency=2, max_submission_concurrency=1)
     c = N.build('up-stream', size, thr, chunk, io, S, fault_at=fault_at, phase=phase, limits=lim, subs=1)
@@ -36,6 +36,8 @@ def shared(after, size, thr, chunk, io, fault_at, phase, cancel_which, cancel_to
     try:
         t = 0
         while True:
+            if after == 'shutdown' and t == shutdown_top:
+                break          # the user calls shutdown() while transfers are still queued / running
             if cancel_which >= 0 and t == cancel_top:
                 for i in range(3):
                     if cancel_which == i and not cancelled[i]:
@@ -125,7 +127,26 @@ def _ranges(lo, hi, w):
 
 _NONE = [['fault_at == -1', 'phase == 0']]
 _Z = ['c0 == 0', 'c1 == 0']
+def early_shutdown(size, thr, chunk, io, fault_at, phase, shutdown_top, c0):
+    """C18.early: shutdown() called before the shutdown_top-th task start, i.e. while transfers are still queued or
+    running - the barrier then rests on wait() + the order in which the three executors are joined"""
+    return shared('shutdown', size, thr, chunk, io, fault_at, phase, -1, 0, c0, 0, shutdown_top)
+
+
 OBLIGATIONS = [
+    dict(id='C18.early', impl='early_shutdown',
+         params='size: int, thr: int, chunk: int, io: int, fault_at: int, phase: int, shutdown_top: int, c0: int',
+         pre=_SH[:-1] + ['0 <= phase <= 1', '0 <= c0 <= 2', '-1 <= fault_at <= 40', '0 <= shutdown_top <= 6'],
+         splits=[['fault_at == -1', 'phase == 0', 'c0 == 0', 'shutdown_top <= 1']] +
+                [[fr, 'c0 == 0', 'shutdown_top == 0'] for fr in _ranges(0, 11, 2)],
+         splits_thorough=[['fault_at == -1', 'phase == 0']] + [[fr, st] for fr in _ranges(0, 39, 4)
+                                                              for st in ('shutdown_top <= 2', 'shutdown_top > 2')],
+         timeout=(170, 1500),
+         bounds='3 transfers on one manager, shutdown() before a symbolic task start (quick: before the first), '
+                'one fault at a symbolic environment call (quick 0..11) - includes the first tracked transfer failing '
+                'while the others have not been submitted to the request stage yet',
+         encodes=['TransferManager._shutdown', 'TransferCoordinatorController.wait (early exit on failure)',
+                  'BoundedExecutor.shutdown order'], assumptions=['S1', 'S2', 'nested (LIFO) schedules only']),
     dict(id='C18.fault-shutdown', impl='shared', params=_P, cases=[('shutdown',)],
          pre=_SH + ['-1 <= fault_at <= 40', 'cancel_which == -1', 'cancel_top == 0'],
          splits=_NONE + [[fr] + _Z for fr in _ranges(0, 27, 4)],
